@@ -320,4 +320,38 @@ theorem typeAt_rel (r : Raw) (hwf : Spec.wf r = true) {b s f : TType}
     rw [this]
     exact (relL_final r).getD _
 
+
+/-- before the last recorded transition the bisect count is below the number of transitions -/
+theorem bisect_lt_of_lt_last (r : Raw) {b s : TType} (hc : Coherent (build r) b s)
+    (hw : WFz (build r) b) (t u : Int) (hlast : lastTime r = some u) (h : t < u) :
+    bisectRight (build r).utc t < (build r).utc.length := by
+  have hb := bisectRight_spec t (hc.utc_sorted hw)
+  have hutc : (build r).utc = r.trans.map (fun p => p.1) := rfl
+  have hle := bisectRight_le (build r).utc t
+  have hpos := hc.npos
+  by_cases e : bisectRight (build r).utc t = (build r).utc.length
+  · have h1 := hb.2.1 ((build r).utc.length - 1) (by omega)
+    have : (build r).utc.getD ((build r).utc.length - 1) 0 = u := by
+      unfold lastTime at hlast
+      rw [hutc, List.getD_eq_getElem?_getD, ← List.getLast?_eq_getElem?, List.getLast?_map, ]
+      cases hl : r.trans.getLast? with
+      | none => rw [hl] at hlast; simp at hlast
+      | some p => rw [hl] at hlast; simp at hlast; simp [hlast]
+    omega
+  · omega
+
+/-- the zone answers `ttinfo_std` from the last transition on; that is the data's answer exactly
+    when `ttinfo_std` is the last transition's type -/
+def LastStd (z : TzFile) : Prop := z.std = some (z.tts.getD (z.utc.length - 1) default)
+
+theorem covered_of (r : Raw) {b s : TType} (hc : Coherent (build r) b s) (hw : WFz (build r) b)
+    (t : Int) (h : (∃ u, lastTime r = some u ∧ t < u) ∨ LastStd (build r)) :
+    Covered (build r) s (bisectRight (build r).utc t) := by
+  rcases h with ⟨u, h1, h2⟩ | h
+  · exact Or.inl (bisect_lt_of_lt_last r hc hw t u h1 h2)
+  · right
+    unfold LastStd at h
+    rw [hc.hs] at h
+    exact Option.some.inj h
+
 end TZ
